@@ -170,3 +170,34 @@ Proof.
   exists p, p'. split; [done|]. split; [done|]. split; [eapply topo_runs_all; eauto|].
   intros md pick1 pick2 f1 f2 t1 Hnp. eapply determinism_all; eauto.
 Qed.
+
+(* ------------------------------------------------------------------ non-vacuity, outside the core fragment *)
+(* a9's split example (contraction: the forward, the FWD request, DUP) and a drop example (weakening:
+   the droppable forward, the GC request) pass the source test; a9's core example does too *)
+Definition example_drop_text : string :=
+"prc[a] : rep 1 = print made; close self
+prc[b] : rep 1 = drop a; print done; close self".
+
+Example example_all_accept :
+  all_accept_text example_split_text = true /\ all_accept_text example_drop_text = true /\ all_accept_text example_text = true.
+Proof. vm_compute. auto. Qed.
+
+(* nothing assumed: the split example prints a permutation of {made, done} under EVERY schedule *)
+Example example_split_every_schedule :
+  exists p p', parse_string example_split_text = POk p /\ typecheck p = Accept p' /\
+  forall pick f, (300 <= f)%nat ->
+    exists t, exec_run f pick Async (p_types p') (p_funs p') (init_config p') = RQuiescent t /\
+              labels t ≡ₚ ["made"; "done"].
+Proof.
+  destruct (all_accept_sound example_split_text (proj1 example_all_accept)) as (p & p' & Hp & Ht & _ & Hdet).
+  exists p, p'. split; [done|]. split; [done|]. intros pick f Hf.
+  destruct (exec_run 300 (fun _ _ => 0%nat) Async (p_types p') (p_funs p') (init_config p')) as [t1| |] eqn:Er.
+  - destruct (Hdet Async (fun _ _ => 0%nat) pick 300%nat f t1 eq_refl Er Hf) as (t2 & H2 & _ & Hl).
+    exists t2. split; [done|]. rewrite Hl. clear Hdet H2 Hl t2.
+    vm_compute in Hp. injection Hp as <-. vm_compute in Ht. injection Ht as <-.
+    vm_compute in Er. injection Er as <-. vm_compute. reflexivity.
+  - exfalso. clear Hdet. vm_compute in Hp. injection Hp as <-. vm_compute in Ht. injection Ht as <-.
+    vm_compute in Er. discriminate.
+  - exfalso. clear Hdet. vm_compute in Hp. injection Hp as <-. vm_compute in Ht. injection Ht as <-.
+    vm_compute in Er. discriminate.
+Qed.
